@@ -39,18 +39,18 @@ package jt808
 //@   ensures C09.own: within(result0, data) || fresh(result0)
 //@   ensures C02.fast: old(noesc(data)) && result1 == nil ==> ptr(result0) == ptr(data) + 1 && len(result0) == len(data) - 2
 //@   ensures len: result1 == nil ==> 1 <= len(result0) && len(result0) <= len(data) - 2
-//@   ensures C01.len: result1 == nil ==> len(result0) == len(data) - 2 - old(ec(data, len(data)-2))
-//@   ensures C01.content: result1 == nil ==> forall(k, 1, len(data)-1, !old(esec(data, k)) ==> result0[k-1-old(ec(data,k))] == old(etok(data, k)))
+//@   ensures C01.C02.len: result1 == nil ==> len(result0) == len(data) - 2 - old(ec(data, len(data)-2))
+//@   ensures C01.C02.content: result1 == nil ==> forall(k, 1, len(data)-1, !old(esec(data, k)) ==> result0[k-1-old(ec(data,k))] == old(etok(data, k)))
 //@   loop 1 invariant pos: 1 <= index && index <= i && i <= len(data) - 1
 //@   loop 1 invariant pairs: forall(k, 1, i, old(data[k]) == 0x7d ==> (old(data[k+1]) == 1 || old(data[k+1]) == 2))
 //@   loop 1 invariant open: bufopen(buf)
 //@   loop 1 invariant buflen: 0 <= buflen(buf) && buflen(buf) <= index - 1 && (index > 1 ==> buflen(buf) >= 1)
-//@   loop 1 invariant C01.flat: forall(j, index, i+1, old(ec(data, j)) == old(ec(data, index)))
-//@   loop 1 invariant C01.plain: forall(k, index, i, old(data[k]) != 0x7d)
-//@   loop 1 invariant C01.nosec: index == 1 || old(data[index-1]) != 0x7d
-//@   loop 1 invariant C01.blen: buflen(buf) == index - 1 - old(ec(data, index))
-//@   loop 1 invariant C01.bbound: forall(k, 1, index, !old(esec(data, k)) ==> k-1-old(ec(data,k)) < buflen(buf))
-//@   loop 1 invariant C01.bcontent: forall(k, 1, index, !old(esec(data, k)) ==> bufat(buf, k-1-old(ec(data,k))) == old(etok(data, k)))
+//@   loop 1 invariant C01.C02.flat: forall(j, index, i+1, old(ec(data, j)) == old(ec(data, index)))
+//@   loop 1 invariant C01.C02.plain: forall(k, index, i, old(data[k]) != 0x7d)
+//@   loop 1 invariant C01.C02.nosec: index == 1 || old(data[index-1]) != 0x7d
+//@   loop 1 invariant C01.C02.blen: buflen(buf) == index - 1 - old(ec(data, index))
+//@   loop 1 invariant C01.C02.bbound: forall(k, 1, index, !old(esec(data, k)) ==> k-1-old(ec(data,k)) < buflen(buf))
+//@   loop 1 invariant C01.C02.bcontent: forall(k, 1, index, !old(esec(data, k)) ==> bufat(buf, k-1-old(ec(data,k))) == old(etok(data, k)))
 //@   loop 1 decreases len(data) - i
 
 // ---------------------------------------------------------------------------------------------
